@@ -117,10 +117,11 @@ type State struct {
 	Steps   int
 	Clock   *Term
 	CutLoops int
+	LastLoop *Loop // the cut loop left most recently (its variables are still meaningful to clauses judged at a return)
 }
 
 func (st *State) clone() *State {
-	n := &State{Alloc: st.Alloc, Disc: st.Disc, PathID: st.PathID, Steps: st.Steps, Clock: st.Clock, CutLoops: st.CutLoops}
+	n := &State{Alloc: st.Alloc, Disc: st.Disc, PathID: st.PathID, Steps: st.Steps, Clock: st.Clock, CutLoops: st.CutLoops, LastLoop: st.LastLoop}
 	n.Frames = make([]*Frame, len(st.Frames))
 	for i, f := range st.Frames {
 		nf := *f
@@ -239,6 +240,7 @@ type Ctx struct {
 	Notes    []string
 	curState *State
 	callsAtReturn bool
+	callsAtLoop *Loop
 	curRet Value
 	InitGlobals bool
 	MapReverse bool
